@@ -1,8 +1,178 @@
-(* C13 — exported theorems only: each is closed by [exact] and followed by Print Assumptions. *)
+(* C13 — exported theorems only: each is closed by [exact] and followed by Print Assumptions;
+   non-vacuity Examples at the end. *)
 From Coq Require Import String List ZArith Bool.
-From Verif Require Import Gen.Gen_consts Gen.Gen_funcs C13.Model C13.Spec C13.Proofs.
+From Verif Require Import Gen.Gen_consts Gen.Gen_funcs
+  C13.Model C13.Spec C13.Codec C13.Check C13.Proofs C13.Proofs_mutate C13.Proofs_stream.
+Import ListNotations.
 Open Scope Z_scope.
 
-Theorem c13_seqb_eq : forall a b, seqb a b = true <-> a = b.
-Proof. exact seqb_eq. Qed.
-Print Assumptions c13_seqb_eq.
+(* ================================================================== generated definitions *)
+(* the four priority bands of apis/extension/priority.go are ordered and disjoint, and
+   getPriorityClassByPriority maps a value to a class iff it lies in that class's band;
+   everything between and outside the bands has no class *)
+Theorem c13_bands_ordered :
+  PriorityFreeValueMin <= PriorityFreeValueMax /\ PriorityFreeValueMax < PriorityBatchValueMin
+  /\ PriorityBatchValueMin <= PriorityBatchValueMax /\ PriorityBatchValueMax < PriorityMidValueMin
+  /\ PriorityMidValueMin <= PriorityMidValueMax /\ PriorityMidValueMax < PriorityProdValueMin
+  /\ PriorityProdValueMin <= PriorityProdValueMax.
+Proof. exact bands_ordered. Qed.
+Print Assumptions c13_bands_ordered.
+
+Theorem c13_bands_disjoint_cover : forall p,
+  (getPriorityClassByPriority p = PriorityProd <-> in_band PriorityProdValueMin PriorityProdValueMax p)
+  /\ (getPriorityClassByPriority p = PriorityMid <-> in_band PriorityMidValueMin PriorityMidValueMax p)
+  /\ (getPriorityClassByPriority p = PriorityBatch <-> in_band PriorityBatchValueMin PriorityBatchValueMax p)
+  /\ (getPriorityClassByPriority p = PriorityFree <-> in_band PriorityFreeValueMin PriorityFreeValueMax p)
+  /\ (getPriorityClassByPriority p = PriorityNone <->
+        ~ in_band PriorityProdValueMin PriorityProdValueMax p
+        /\ ~ in_band PriorityMidValueMin PriorityMidValueMax p
+        /\ ~ in_band PriorityBatchValueMin PriorityBatchValueMax p
+        /\ ~ in_band PriorityFreeValueMin PriorityFreeValueMax p).
+Proof. exact bands_disjoint_cover. Qed.
+Print Assumptions c13_bands_disjoint_cover.
+
+(* ================================================================== validating webhook *)
+(* every admitted pod, on every operation, with or without the priority gate *)
+Theorem c13_admitted_sound : forall g op old new,
+  allowed g op old new = true -> C13_admitted op old new.
+Proof. exact admitted_sound. Qed.
+Print Assumptions c13_admitted_sound.
+
+Theorem c13_pairs : forall g op old new,
+  allowed g op old new = true ->
+  (qos_raw new = QoSBE -> pclass_raw new <> PriorityNone /\ pclass_raw new <> PriorityProd)
+  /\ (qos_raw new = QoSLSR -> pclass_raw new = PriorityProd).
+Proof. exact pairs_thm. Qed.
+Print Assumptions c13_pairs.
+
+Theorem c13_whole_cpus : forall g op old new,
+  allowed g op old new = true ->
+  qos_raw new = QoSLSR \/ qos_raw new = QoSLSE ->
+  pod_request new R_CPU <> 0 /\ milli_value (pod_request new R_CPU) mod 1000 = 0.
+Proof. exact whole_cpus_thm. Qed.
+Print Assumptions c13_whole_cpus.
+
+(* what "whole" means below the milli-core: the implementation's test
+   Value()*1000 == MilliValue() accepts exactly the amounts within one milli-core below an
+   integer number of CPUs (amounts in nano-cores) *)
+Theorem c13_whole_cpus_exact : forall q,
+  (unit_value q * 1000 = milli_value q <-> milli_value q mod 1000 = 0)
+  /\ (milli_value q mod 1000 = 0 <-> exists n, nano * n - 1000000 < q <= nano * n).
+Proof. exact whole_exact_thm. Qed.
+Print Assumptions c13_whole_cpus_exact.
+
+(* ... so in exact arithmetic a non-integer amount is admitted (finding C13-submilli-cpu) *)
+Theorem c13_whole_cpus_strict_refuted :
+  exists p, allowed false OP_CREATE p p = true /\ qos_raw p = QoSLSR
+            /\ pod_request p R_CPU mod nano <> 0.
+Proof. exact whole_strict_refuted. Qed.
+Print Assumptions c13_whole_cpus_strict_refuted.
+
+Theorem c13_batch_only_be : forall g op old new,
+  allowed g op old new = true ->
+  pod_request new R_BCPU <> 0 \/ pod_request new R_BMEM <> 0 -> qos_raw new = QoSBE.
+Proof. exact batch_only_be_thm. Qed.
+Print Assumptions c13_batch_only_be.
+
+Theorem c13_immutable : forall g old new,
+  allowed g OP_UPDATE old new = true ->
+  qos_raw new = qos_raw old /\ pclass_raw new = pclass_raw old.
+Proof. exact immutable_thm. Qed.
+Print Assumptions c13_immutable.
+
+(* the complete decision table: a request is admitted iff the five clauses hold and, on
+   update with the gate off, the koordinator.sh/priority label is unchanged *)
+Theorem c13_validate_complete : forall g op old new,
+  allowed g op old new = true <->
+    C13_admitted op old new
+    /\ (op = OP_UPDATE -> g = false -> lval K_PRIO (p_labels new) = lval K_PRIO (p_labels old)).
+Proof. exact admitted_complete. Qed.
+Print Assumptions c13_validate_complete.
+
+(* Spec connection and what the driver runs on the validate stream *)
+Theorem c13_validate_code_spec : forall op old new,
+  validate_code op old new true = 0 <-> C13_admitted op old new.
+Proof. exact validate_code_spec. Qed.
+Print Assumptions c13_validate_code_spec.
+
+Theorem c13_validate_stream : forall inp, prop_validate inp (run_validate inp) = 0.
+Proof. exact validate_stream_holds. Qed.
+Print Assumptions c13_validate_stream.
+
+(* ================================================================== mutating webhook *)
+(* main theorem: after any successful Create admission (any profile set, namespace, gates,
+   random draw) the pod satisfies the property relative to the submitted pod, on every
+   resource name *)
+Theorem c13_mutated : forall keys e ps p pout,
+  admit_pod e OP_CREATE ps p = Some pout ->
+  C13_mutated keys (translating e ps p) (e_gate_noext e) p pout.
+Proof. exact create_mutated. Qed.
+Print Assumptions c13_mutated.
+
+(* per container, in words of the property: native entries removed, amounts kept (CPU in
+   milli-cores), the request defaulted from the limit only when it is absent *)
+Theorem c13_translate_preserves : forall cls c n e,
+  ext_name cls n = Some e ->
+  let c' := translate_container cls c in
+  rget n (c_req c') = None /\ rget n (c_lim c') = None
+  /\ (forall q, rget n (c_lim c) = Some q -> rget e (c_lim c') = Some (to_ext n q))
+  /\ (rget n (c_lim c) = None -> rget e (c_lim c') = rget e (c_lim c))
+  /\ (forall q, rget n (c_req c) = Some q -> rget e (c_req c') = Some (to_ext n q))
+  /\ (forall v, rget n (c_req c) = None -> rget e (c_req c) = Some v -> rget e (c_req c') = Some v)
+  /\ (rget n (c_req c) = None -> rget e (c_req c) = None -> rget e (c_req c') = rget e (c_lim c')).
+Proof. exact translate_preserves. Qed.
+Print Assumptions c13_translate_preserves.
+
+Theorem c13_translate_frame : forall cls c k,
+  ext_name cls k = None -> native_of_ext cls k = None ->
+  rget k (c_req (translate_container cls c)) = rget k (c_req c)
+  /\ rget k (c_lim (translate_container cls c)) = rget k (c_lim c).
+Proof. exact translate_frame. Qed.
+Print Assumptions c13_translate_frame.
+
+Theorem c13_milli_is_ceiling : forall q, 1000000 * (milli_value q - 1) < q <= 1000000 * milli_value q.
+Proof. exact milli_ceiling. Qed.
+Print Assumptions c13_milli_is_ceiling.
+
+(* the summary annotation is exactly the batch entries of the final containers *)
+Theorem c13_spec_matches_final : forall e ps p pout,
+  admit_pod e OP_CREATE ps p = Some pout -> ann_ok (e_gate_noext e) p pout.
+Proof. exact spec_matches_final. Qed.
+Print Assumptions c13_spec_matches_final.
+
+Theorem c13_mutate_code_spec : forall keys en noext pin pout,
+  mutate_code keys en noext pin pout = 0 <-> C13_mutated keys en noext pin pout.
+Proof. exact mutate_code_spec. Qed.
+Print Assumptions c13_mutate_code_spec.
+
+(* admitting the result again changes nothing: the translation and the annotation are
+   idempotent, re-admission as Update returns the same pod, the verdict is unchanged *)
+Theorem c13_translate_idempotent : forall cls p,
+  translate_pod cls (translate_pod cls p) = translate_pod cls p.
+Proof. exact translate_pod_idem. Qed.
+Print Assumptions c13_translate_idempotent.
+
+Theorem c13_idempotent : forall e ps p p1,
+  admit_pod e OP_CREATE ps p = Some p1 ->
+  admit_pod e OP_UPDATE ps p1 = Some p1
+  /\ forall p2, admit_pod e OP_UPDATE ps p1 = Some p2 ->
+       p2 = p1 /\ forall g op old, validate g op old p2 = validate g op old p1.
+Proof. exact idempotent_thm. Qed.
+Print Assumptions c13_idempotent.
+
+(* re-admission as Create: excluded from the claim is the profile patching itself
+   (labelSuffixes append again, a changed label set can match other profiles); the exclusion
+   is the three hypotheses *)
+Theorem c13_idempotent_create : forall e ps p p1 p3,
+  admit_pod e OP_CREATE ps p = Some p1 ->
+  admit_pod e OP_CREATE ps p1 = Some p3 ->
+  p_labels p3 = p_labels p1 -> p_prio p3 = p_prio p1 ->
+  translating e ps p1 = translating e ps p ->
+  p3 = p1.
+Proof. exact readmit_create. Qed.
+Print Assumptions c13_idempotent_create.
+
+(* what the driver runs on the mutate stream *)
+Theorem c13_mutate_stream_partial : forall inp, prop_mutate_core inp = 0.
+Proof. exact mutate_stream_core. Qed.
+Print Assumptions c13_mutate_stream_partial.
